@@ -489,6 +489,7 @@ class Check(common.Check):
         'next_err_obs', 'streams_independent', 'blueprint_immutable', 'stopped_stays_stopped',
         'good_of_wf')]
     N_QUICK = 1500
+    ALL_N = 48
     DEN_K = 12
     DEN_N = 40
     N_THOROUGH = 60000
@@ -530,6 +531,11 @@ class Check(common.Check):
             obs, flags = orc.observe(derive(t), n + 2)
             if flags:
                 continue
+            if rng.random() < 0.3:
+                # all() on stream 0 (fresh or after some nexts) when the rest of the sequence is short and error-free
+                full, fl = orc.observe(derive(t), n + 2 + self.ALL_N - 8)
+                if not fl and 'ERR' not in full and 'STOP' in full and full.index('STOP') <= self.ALL_N - 8:
+                    ops.insert(rng.randint(1, len(ops)), ['all', 0])
             return {'pat': t, 'ops': ops, 'inval': rng.choice([0, 0, 1, 2])}
         raise common.Infra('generator could not find a productive exact term')
 
@@ -548,7 +554,9 @@ class Check(common.Check):
             lines.append('reset')
             lines.append('pat ' + sx(derive(c['pat'])))
             for o in c['ops']:
-                if o[0] != 'mutate':           # the model has no caller lists: nothing to do
+                if o[0] == 'all':              # all() = next() until the stream stops
+                    lines += [f'next {o[1]}'] * self.ALL_N
+                elif o[0] != 'mutate':         # the model has no caller lists: nothing to do
                     lines.append('new' if o[0] == 'new' else f'next {o[1]}')
             lines.append(f'den {self.DEN_K} {self.DEN_N}')
         out, err = common.run_driver('Sc3Verif/C13/Driver.lean', lines)
@@ -566,6 +574,11 @@ class Check(common.Check):
             for o in c['ops']:
                 if o[0] == 'mutate':
                     r.insert(k, 'ok')
+                elif o[0] == 'all':
+                    part = r[k:k + self.ALL_N]
+                    stop = next((i for i, v in enumerate(part) if v in ('STOP', 'ERR')), None)
+                    r[k:k + self.ALL_N] = ['NOSTOP' if stop is None else
+                                           ('ERR' if part[stop] == 'ERR' else 'all:' + ','.join(part[:stop]))]
                 k += 1
             if len(r) != len(c['ops']) + 2 or r[0] != 'ok':
                 final.append({'ops': r, 'den': None})
@@ -575,13 +588,20 @@ class Check(common.Check):
 
     def expected(self, case):
         """Oracle: outputs of every op according to the documented meaning."""
-        n = sum(1 for o in case['ops'] if o[0] == 'next')
+        n = sum(1 if o[0] == 'next' else self.ALL_N if o[0] == 'all' else 0 for o in case['ops'])
         obs, flags = orc.observe(derive(case['pat']), n + 2)
         if flags:
             return None
         pos, out = [], []
         for o in case['ops']:
-            if o[0] == 'mutate':
+            if o[0] == 'all':
+                i = pos[o[1]]
+                if 'STOP' not in obs[i:] or 'ERR' in obs[i:]:
+                    return None
+                j = obs.index('STOP', i) if i < len(obs) else i
+                out.append('all:' + ','.join(obs[i:j]))
+                pos[o[1]] = j
+            elif o[0] == 'mutate':
                 out.append('ok')               # a pattern denotes the values it was built from
             elif o[0] == 'new':
                 out.append(str(len(pos))); pos.append(0)
